@@ -57,7 +57,11 @@
   the destination table of the move has already been found, recycled or created (`RelLooked`); no
   entity-level observation (liveness, components, values, relation targets) can tell the
   difference.  The same holds for `Remove` (`remove_rel_sees`).
-  Hypothesis beyond the setting: the lock hands out a bit (`LockCycle`), as in C08World.
+  Hypotheses beyond the setting: the lock hands out a bit (`LockCycle`), as in C08World; the IDs
+  of the targets assigned lie inside the pool slice (`htin`, inherited from the observer-free
+  specifications `opSetRelations_spec`, `opNewEntity_rel_spec`, `opAdd_rel_spec` since the pool
+  link tolerates invalidated handles behind the slice after `Reset`); the handle's ID lies inside
+  the slice (`Live.inPool`).
 -/
 import Ark.Proofs.CallbacksRelRemove
 import Ark.Props.C04World
@@ -98,6 +102,7 @@ theorem setRelations_callbacks (st : SettingRel run S rec w fl) (run0 : ProbeRun
     {mapperIds : List Comp} {rels : List RelID}
     (hne : rels.isEmpty = false) (hnd : (rels.map (·.comp)).Nodup)
     (hhas : ∀ (r : RelID), r ∈ rels → (targetOf w e.id r.comp).isSome = true)
+    (htin : ∀ (r : RelID), r ∈ rels → r.target.id < w.pool.ents.length)
     (hfew : w.tables.length < maxU32) (hrows : w.entities.length + 1 < 2 ^ 32)
     {l1 l2 : Lock} {b : Nat} (hL : LockCycle w.locks l1 b l2) {w0 : World}
     (h0 : opSetRelations run0 p e mapperIds rels w.noObs = .ok () w0) :
@@ -111,7 +116,7 @@ theorem setRelations_callbacks (st : SettingRel run S rec w fl) (run0 : ProbeRun
         ++ (((firingRel w.obs Ev.onRemoveRelations (changedRels w e rels) (w.maskOf e)).map
             fun l => (l, e)).reverse
         ++ cbsOf w.log) :=
-  setRelations_cbs st run0 p hl he hne hnd hhas hfew hrows hL h0
+  setRelations_cbs st run0 p hl he hne hnd hhas htin hfew hrows hL h0
 
 /-- what `changedRels` and `firingRel` are -/
 theorem changedRels_iff {w : World} {e : Ent} {rels : List RelID} {c : Comp} :
@@ -135,10 +140,11 @@ theorem setRelations_accepted (st : SettingRel run S rec w fl) (p : Path)
     (hhas : ∀ (r : RelID), r ∈ rels → (targetOf w e.id r.comp).isSome = true)
     (hval : ∀ (r : RelID), r ∈ rels → r.target.isZero = true ∨ w.alive r.target = true)
     (hreg : ∀ (r : RelID), r ∈ rels → w.isRelComp r.comp = true ∧ r.comp < 256)
+    (htin : ∀ (r : RelID), r ∈ rels → r.target.id < w.pool.ents.length)
     (hfew : w.tables.length < maxU32) (hrows : w.entities.length + 1 < 2 ^ 32)
     {l1 l2 : Lock} {b : Nat} (hL : LockCycle w.locks l1 b l2) :
     ∃ (w' : World), opSetRelations run p e (rels.map (·.comp)) rels w = .ok () w' :=
-  setRelations_total st p hl he hne hnd hhas hval hreg hfew hrows hL
+  setRelations_total st p hl he hne hnd hhas hval hreg htin hfew hrows hL
 
 /-- **C09**: removal observers see the world before the move, locked; addition observers the
     world after it, the lock released -/
@@ -147,6 +153,7 @@ theorem setRelations_sees (st : SettingRel run S rec w fl) (run0 : ProbeRunner) 
     {mapperIds : List Comp} {rels : List RelID}
     (hne : rels.isEmpty = false) (hnd : (rels.map (·.comp)).Nodup)
     (hhas : ∀ (r : RelID), r ∈ rels → (targetOf w e.id r.comp).isSome = true)
+    (htin : ∀ (r : RelID), r ∈ rels → r.target.id < w.pool.ents.length)
     (hfew : w.tables.length < maxU32) (hrows : w.entities.length + 1 < 2 ^ 32)
     {l1 l2 : Lock} {b : Nat} (hL : LockCycle w.locks l1 b l2) {w0 : World}
     (h0 : opSetRelations run0 p e mapperIds rels w.noObs = .ok () w0)
@@ -168,7 +175,7 @@ theorem setRelations_sees (st : SettingRel run S rec w fl) (run0 : ProbeRunner) 
       SameEnt w seenA e.id ∧
       (∀ (j : Nat), j ≠ e.id → SameEnt w seenA j ∧ ∀ (c : Comp), targetOf seenA j c = targetOf w j c) ∧
       (∀ (x : Ent), seenA.alive x = w.alive x) :=
-  setRelations_seen st run0 p hl he hne hnd hhas hfew hrows hL h0 hch
+  setRelations_seen st run0 p hl he hne hnd hhas htin hfew hrows hL h0 hch
 
 /-- for a log-blind runner every record of a round is a function of the ONE world the round ran
     on (`seenB` resp. `seenA` above) -/
@@ -228,7 +235,7 @@ theorem removesRel_iff {w : World} {e : Ent} {rem : List Comp} :
 
 theorem hasRelComps_iff_target (h : TInvObs w fl) {e : Ent} (he : Live w fl e) :
     hasRelComps w e = true ↔ ∃ (c : Comp), (targetOf w e.id c).isSome = true :=
-  hasRelComps_iff h.toTInv he.ge2 he.notFree he.alive
+  hasRelComps_iff h.toTInv he.ge2 he.notFree he.alive he.inPool
 
 /-- **no relation, no relation observers** — not even wildcard ones -/
 theorem no_relation_no_relation_observers (m : ObsMgr) (ev : EvInst) :
@@ -280,6 +287,7 @@ theorem newEntity_rel_callbacks (st : SettingRel run S rec w fl) (run0 : ProbeRu
     (hreg : ∀ (c : Comp), c ∈ ids → c < w.kinds.length)
     (hnd : (rels.map (·.comp)).Nodup) (hin : ∀ (r : RelID), r ∈ rels → r.comp ∈ ids)
     (hrc : ∀ (r : RelID), r ∈ rels → w.isRelComp r.comp = true)
+    (htin : ∀ (r : RelID), r ∈ rels → r.target.id < w.pool.ents.length)
     (hfew : w.tables.length < maxU32) (hrows : w.entities.length + 1 < 2 ^ 32)
     {e : Ent} {w0 : World} (h0 : opNewEntity run0 p ids vals rels w.noObs = .ok e w0) :
     NewRelPost w.noObs fl rels e w0 ∧
@@ -289,7 +297,7 @@ theorem newEntity_rel_callbacks (st : SettingRel run S rec w fl) (run0 : ProbeRu
         ((firingIfRels w.obs rels (.entityRel (Mask.ofList ids))).map fun l => (l, e)).reverse ++
         (((firing w.obs Ev.onCreateEntity (.entity (Mask.ofList ids))).map fun l => (l, e)).reverse
           ++ cbsOf w.log) :=
-  newEntityRel_cbs st run0 p hl hreg hnd hin hrc hfew hrows h0
+  newEntityRel_cbs st run0 p hl hreg hnd hin hrc htin hfew hrows h0
 
 /-- **C09 for `NewEntity(ids…, rels…)`**: the complete log; both rounds run on the world after the
     creation (`seenAfter`: with the typed paths the values are written, with `Unsafe` not yet), the
@@ -300,6 +308,7 @@ theorem newEntity_rel_sees (hro : ReadOnly run S rec) (run0 : ProbeRunner) (p : 
     (hreg : ∀ (c : Comp), c ∈ ids → c < w.kinds.length)
     (hnd : (rels.map (·.comp)).Nodup) (hin : ∀ (r : RelID), r ∈ rels → r.comp ∈ ids)
     (hrc : ∀ (r : RelID), r ∈ rels → w.isRelComp r.comp = true)
+    (htin : ∀ (r : RelID), r ∈ rels → r.target.id < w.pool.ents.length)
     (hfew : w.tables.length < maxU32) (hrows : w.entities.length + 1 < 2 ^ 32)
     {e : Ent} {w0 : World} (h0 : opNewEntity run0 p ids vals rels w.noObs = .ok e w0) :
     NewRelPost w.noObs fl rels e w0 ∧
@@ -308,7 +317,7 @@ theorem newEntity_rel_sees (hro : ReadOnly run S rec) (run0 : ProbeRunner) (p : 
       opNewEntity run p ids vals rels w = .ok e (w0.relog w.obs
         (addRounds rec w.obs e Ev.onCreateEntity (.entity (Mask.ofList ids)) rels
           (.entityRel (Mask.ofList ids)) ((seenAfter p w1 e vals).relog w.obs w.log) ++ w.log)) :=
-  opNewEntity_rel_callbacks hro run0 p hs h hl hreg hnd hin hrc hfew hrows h0
+  opNewEntity_rel_callbacks hro run0 p hs h hl hreg hnd hin hrc htin hfew hrows h0
 
 /-- **C08 for `Add(e, ids…, rels…)`** -/
 theorem add_rel_callbacks (st : SettingRel run S rec w fl) (run0 : ProbeRunner) (p : Path)
@@ -317,6 +326,7 @@ theorem add_rel_callbacks (st : SettingRel run S rec w fl) (run0 : ProbeRunner) 
     (hreg : ∀ (c : Comp), c ∈ ids → c < w.kinds.length)
     (hnd : (rels.map (·.comp)).Nodup) (hin : ∀ (r : RelID), r ∈ rels → r.comp ∈ ids)
     (hrc : ∀ (r : RelID), r ∈ rels → w.isRelComp r.comp = true)
+    (htin : ∀ (r : RelID), r ∈ rels → r.target.id < w.pool.ents.length)
     (hfew : w.tables.length < maxU32) (hrows : w.entities.length + 1 < 2 ^ 32)
     {w0 : World} (h0 : opAdd run0 p e ids vals rels w.noObs = .ok () w0) :
     AddRelPost w.noObs fl e ids vals rels w0 ∧
@@ -328,7 +338,7 @@ theorem add_rel_callbacks (st : SettingRel run S rec w fl) (run0 : ProbeRunner) 
         (((firing w.obs Ev.onAddComponents
             (.add (w.maskOf e) (ids.foldl Mask.set (w.maskOf e)))).map fun l => (l, e)).reverse
           ++ cbsOf w.log) :=
-  addRel_cbs st run0 p hl he hreg hnd hin hrc hfew hrows h0
+  addRel_cbs st run0 p hl he hreg hnd hin hrc htin hfew hrows h0
 
 /-- **C09 for `Add(e, ids…, rels…)`**: the complete log; both rounds on the world after the change -/
 theorem add_rel_sees (hro : ReadOnly run S rec) (run0 : ProbeRunner) (p : Path)
@@ -337,6 +347,7 @@ theorem add_rel_sees (hro : ReadOnly run S rec) (run0 : ProbeRunner) (p : Path)
     (hreg : ∀ (c : Comp), c ∈ ids → c < w.kinds.length)
     (hnd : (rels.map (·.comp)).Nodup) (hin : ∀ (r : RelID), r ∈ rels → r.comp ∈ ids)
     (hrc : ∀ (r : RelID), r ∈ rels → w.isRelComp r.comp = true)
+    (htin : ∀ (r : RelID), r ∈ rels → r.target.id < w.pool.ents.length)
     (hfew : w.tables.length < maxU32) (hrows : w.entities.length + 1 < 2 ^ 32)
     {w0 : World} (h0 : opAdd run0 p e ids vals rels w.noObs = .ok () w0) :
     AddRelPost w.noObs fl e ids vals rels w0 ∧
@@ -348,7 +359,8 @@ theorem add_rel_sees (hro : ReadOnly run S rec) (run0 : ProbeRunner) (p : Path)
           (.add (w.maskOf e) (ids.foldl Mask.set (w.maskOf e))) rels
           (.add (w.maskOf e) (ids.foldl Mask.set (w.maskOf e)))
           ((seenAfter p w1 e vals).relog w.obs w.log) ++ w.log)) :=
-  opAdd_rel_callbacks hro run0 p hs h hl he.ge2 he.notFree he.alive hreg hnd hin hrc hfew hrows h0
+  opAdd_rel_callbacks hro run0 p hs h hl he.ge2 he.notFree he.alive he.inPool hreg hnd hin hrc htin
+    hfew hrows h0
 
 /-- **C08 for `Remove(e, rem…)` in a world with relations** (the call never fails) -/
 theorem remove_rel_callbacks (st : SettingRel run S rec w fl) (run0 : ProbeRunner) (p : Path)
@@ -389,7 +401,7 @@ theorem remove_rel_sees (hro : ReadOnly run S rec) (run0 : ProbeRunner) (p : Pat
           (w1.reframe w.obs w.log l1) ++ w.log)
         (lockAfter2 w Ev.onRemoveComponents (removesRel w e rem) l2)) := by
   obtain ⟨w1, w0, a, b', c, d, e'⟩ := opRemove_rel_callbacks hro run0 p hs h hl he.ge2 he.notFree
-    he.alive hne hnd hpres hfew hrows hL
+    he.alive he.inPool hne hnd hpres hfew hrows hL
   exact ⟨w1, w0, a, b', LockCycle.locked hL, c, d, e'⟩
 
 /-- **C08 for `RemoveEntity(e)` in a world with relations** — `e` may have relation components
@@ -425,7 +437,7 @@ theorem removeEntity_rel_sees (hro : ReadOnly run S rec) (run0 : ProbeRunner)
           (.entityRel (w.maskOf e)) (w.withLocks l1) ++ w.log)
         (lockAfter2 w Ev.onRemoveEntity (hasRelComps w e) l2)) :=
   ⟨LockCycle.locked hL, opRemoveEntity_rel_callbacks hro run0 hs h hl he.ge2 he.notFree he.alive
-    hfew hrows hL⟩
+    he.inPool hfew hrows hL⟩
 
 /-- what the rounds are (newest first): the first round on `seen`, the relation round on `seen`
     with the records of the first round logged -/
@@ -597,8 +609,8 @@ example : ∃ w0 w' : World,
   | ok u w0 =>
     cases u
     obtain ⟨post, w', h1, h2, _, _, h5⟩ := setRelations_callbacks st noRun .typed hl he
-      (mapperIds := [0]) (rels := [⟨0, p1⟩]) (by decide) (by decide) (by decide +kernel) hfew hrows
-      hL h0
+      (mapperIds := [0]) (rels := [⟨0, p1⟩]) (by decide) (by decide) (by decide +kernel)
+      (by decide +kernel) hfew hrows hL h0
     refine ⟨w0, w', rfl, post, h1, h2, ?_⟩
     rw [h5]
     decide +kernel
@@ -708,7 +720,7 @@ example : ∃ w0 w' : World,
   obtain ⟨w0, h0⟩ := hok0
   obtain ⟨post, w', h1, h2, _, h5⟩ := newEntity_rel_callbacks st noRun .typed hl
     (ids := [0, 1]) (vals := [(1, 3)]) (rels := [⟨0, p1⟩]) (by decide +kernel) (by decide)
-    (by decide) (by decide +kernel) hfew hrows h0
+    (by decide) (by decide +kernel) (by decide +kernel) hfew hrows h0
   refine ⟨w0, w', h0, post, h1, h2, ?_⟩
   rw [h5]
   decide +kernel
